@@ -59,6 +59,11 @@ Ltac break1 :=
   | |- context [if ?c then _ else _] => destruct c eqn:?
   end.
 
+Ltac break_if :=
+  match goal with
+  | |- context [if ?c then _ else _] => destruct c eqn:?
+  end.
+
 (* ---- API calls emit no callback event ---- *)
 Lemma lapi_no_cb s o : cbs (snd (lapi s o)) = [].
 Proof.
